@@ -478,9 +478,9 @@ func TestVerif_C07_h2hostile(t *testing.T) {
 			default:
 				s.Observe(id, true, "", len(tags) > 0, human, "")
 			}
-		case <-time.After(15 * time.Second):
+		case <-time.After(c07Watchdog(opts[oi].name)):
 			s.Count("wedged")
-			s.Observe(id, false, class, true, human, "call did not return within 15 s although the peer closed the connection and the client timeout is 10 s")
+			s.Observe(id, false, class, true, human, "call did not return within the watchdog bound (15 s per attempt) although the peer closed the connection and the client timeout is 10 s per attempt")
 			wedges++
 			mk(oi) // that client is stuck; continue with a fresh one
 		}
